@@ -184,6 +184,8 @@ PIECE = re.compile(r"//[^\n]*|/\*.*?\*/|\"[^\"\n]*\"|[A-Za-z_][A-Za-z_0-9]*|[0-9
 
 def has_sig(r, sig):
     a, b = failures(r)
+    if sig.startswith("valid:"):
+        return any("valid:" + s == sig for s, _, _ in b)
     return any(s == sig for s, _, _ in a + b)
 
 
@@ -540,7 +542,13 @@ def main(ctx, args):
     known_by_sig = {k["sig"]: k for k in known}
     hit = collections.Counter()
     new = []
-    for sig, e in stats["c04"].items():
+    # panics of a compile entry point on a text the front end accepts WITHOUT any diagnostic (`valid`) were only reported in the
+    # evidence until session 4 ("C03's business") although no check consumed them: they are judged like every other crash now —
+    # listed signature = KNOWN-FINDING, anything else = VIOLATION (the signature carries the prefix `valid:`)
+    merged = dict(stats["c04"])
+    for sig, e in stats["c03"].items():
+        merged["valid:" + sig] = e
+    for sig, e in merged.items():
         if sig in known_by_sig:
             hit[sig] += e["count"]
         else:
